@@ -625,6 +625,11 @@ def lex_rec(rep, ex: Explorer, be: Backend):
                     facts.append(("CMP", (key[1], sides_in, lin[1]), val))
                 elif all(t == "k" for t, _ in lin[0]):
                     tie = True
+                elif any(isinstance(t, tuple) and t and t[0] == "max" for t, _ in lin[0]):
+                    rep.violation("LEX.cardinality", site, "compared quantity", "the layers are compared by the minimum cardinality of the correction sets of each side",
+                                  extracted="a maximum over the sets of a side", required="min |x| over V vs min |y| over F", function=site)
+                    facts = None
+                    break
                 else:
                     raise AnalysisError(f"{site}: comparison not over the minimum cardinalities of the two sides: {key!r}")
             elif key[0] == "loopexit":
@@ -633,6 +638,8 @@ def lex_rec(rep, ex: Explorer, be: Backend):
                 continue
             else:
                 raise AnalysisError(f"{site}: outcome depends on {key!r}")
+        if facts is None:
+            continue
         out = _bool_outcome(p)
         for EV, EF, mv, mf in product((True, False), (True, False), range(3), range(3)):
             ok = True
@@ -675,7 +682,7 @@ def lex_rec(rep, ex: Explorer, be: Backend):
         # the tie continues with exactly the minimum-cardinality members of each side
         if tie:
             for ev, Q in iter_events(p.events):
-                if ev.kind == "loop" and ev.data.get("exits") is not None and ev.fam in (("members", V), ("members", Fm)):
+                if ev.kind == "loop" and ev.fam in (("members", V), ("members", Fm)) and _contains_recurse(ev):
                     sd = "v" if ev.fam == ("members", V) else "f"
                     g = ev.seg_guard
                     okg = False
@@ -685,10 +692,17 @@ def lex_rec(rep, ex: Explorer, be: Backend):
                         lenterm = ("len", ev.evar)
                         mins = [t for t in terms if _min_term_side(t, V, Fm) == sd]
                         okg = lin[1] == 0 and len(terms) == 2 and lenterm in terms and len(mins) == 1 and terms[lenterm] == -terms[mins[0]]
-                    if any(d[0] == "loopexit" for d in p.decisions):
-                        rep.check(okg, "LEX.cardinality", f"{site}:{ev.node.lineno}", f"tie members ({sd}-side)", "a tie continues with exactly the minimum-cardinality sets of each side",
-                                  extracted=show_pred(g), required="|x| = min |·|", function=site)
+                    rep.check(okg, "LEX.cardinality", f"{site}:{ev.node.lineno}", f"tie members ({sd}-side)", "a tie continues with exactly the minimum-cardinality sets of each side",
+                              extracted=show_pred(g), required="|x| = min |·|", function=site)
     rep.floor(f"LEX cardinality rows ({be.name})", n_rows, 4)
+
+
+def _contains_recurse(loop_ev):
+    for case in loop_ev.cases:
+        for ev, Q in iter_events(case.events):
+            if ev.kind == "recurse":
+                return True
+    return False
 
 
 def lex_sides(rep, be: Backend, site, p, prefix="LEX"):
@@ -831,3 +845,34 @@ def lex_ties(rep, ex: Explorer, be: Backend):
                   "on a tie the answer is ∃v ∀f: Rec(v,f) over the minimum sets (lexicographic order is total)",
                   extracted=f"{out}" + (f" for {desc_m(bad)}" if bad else ""), required="∃v∀f Rec(v,f)" + (f" = {not out}" if bad else ""), function=site)
     rep.floor(f"LEX tie paths ({be.name})", n, 3)
+
+
+
+def lex_strict_shortcuts(rep, ex: Explorer, be: Backend):
+    """LEX.strict-shortcuts: an answer given in strict mode without consulting the layers must be justified:
+    True only when A∧¬B is unsatisfiable, False only when A∧B is unsatisfiable while A∧¬B is satisfiable."""
+    from ..harness import sat_literals
+
+    site, paths = entry_paths(rep, ex, be)
+    n = 0
+    for p in paths:
+        if decided(p, ("truthy", "weakly")) is not False or p.outcome[0] != "return":
+            continue
+        if any(ev.kind == "reccall" for ev, Q in iter_events(p.events)):
+            continue
+        lits, other = sat_literals(p)
+        g = ("and", tuple(lits))
+        out = _bool_outcome(p)
+        n += 1
+        if out is True:
+            ok, w = F.guard_implies(g, ("not", ("sat", falsification(QUERY))))
+            rep.check(ok, "LEX.strict-shortcuts", site, "shortcut True", "True without the layers only when A∧¬B is unsatisfiable",
+                      extracted=F.show_guard(g) + (f" holds on {w}" if w else ""), required="⊆ UNSAT(A∧¬B)", function=site)
+        elif out is False:
+            want = ("and", (("not", ("sat", verification(QUERY))), ("sat", falsification(QUERY))))
+            ok, w = F.guard_implies(g, want)
+            rep.check(ok, "LEX.strict-shortcuts", site, "shortcut False", "False without the layers only when A∧B is unsatisfiable and A∧¬B is satisfiable",
+                      extracted=F.show_guard(g) + (f" holds on {w}" if w else ""), required="⊆ UNSAT(A∧B) ∧ SAT(A∧¬B)", function=site)
+        else:
+            rep.violation("LEX.strict-shortcuts", site, "shortcut answer", "a strict answer without the layers is not a Boolean constant", extracted=str(out), required="True/False", function=site)
+    return n
